@@ -92,6 +92,8 @@ def run_program(ctx, prog, rng, pidx):
             continue
         placements.append({pos: 'raise_user'})
         placements.append({pos: 'raise_interrupt'})
+        placements.append({pos: 'disable'})                          # kill switch mid-flight, run still returns / raises normally
+        placements.append({pos: 'disable', trace[-1][0]: 'raise_user'} if trace[-1][0] != pos else {pos: 'disable'})
         if op in ('in', 'out'):
             placements.append({pos: 'body_raise_user'})
             placements.append({pos: 'body_raise_interrupt'})
@@ -118,11 +120,16 @@ def run_program(ctx, prog, rng, pidx):
                 (incomplete_ids if interrupted else complete_ids).append(saves[0][2])
                 # what is stored must say the same as what was handed over
                 try:
-                    stored = box.reader().get_recording_metadata(saves[0][2])
                     from playback.tape_recorder import TapeRecorder as TR
-                    for k in (TR.INCOMPLETE_RECORDING, TR.EXCEPTION_IN_OPERATION):
-                        if stored.get(k) != md.get(k):
-                            ctx.violation('stored metadata differs from the metadata handed to the cassette', dict(w, key=k))
+                    rd = box.reader()
+                    for view, stored in (('metadata fetched on its own', rd.get_recording_metadata(saves[0][2])),
+                                         ('metadata of the fetched recording', rd.get_recording(saves[0][2]).get_metadata())):
+                        ctx.count('stored_metadata_views_checked')
+                        for k in (TR.INCOMPLETE_RECORDING, TR.EXCEPTION_IN_OPERATION, TR.DURATION, TR.RECORDED_AT):
+                            if stored.get(k) != md.get(k):
+                                ctx.violation('stored metadata (%s) differs from the metadata handed to the cassette' % view, dict(w, key=k))
+                        if stored.get(TR.OPERATION_CLASS) is not res.live.cls:
+                            ctx.violation('stored metadata (%s) does not state the operation class' % view, w)
                 except Exception as ex:
                     ctx.violation('stored metadata not readable: %s' % type(ex).__name__, w)
         # default lookup excludes exactly the incomplete ones
@@ -143,6 +150,9 @@ def gen_c18_program(seed):
                     nested=False, record_data=False, extractor=False)
     p['gen_seed'] = seed
     p['params'] = None
+    if rng.random() < 0.3:
+        # the service records a datum under a key that some storage formats reserve
+        p['body'].insert(0, {'op': 'record_data', 'key': '_metadata', 'value': {'lit': {'user': 'blob'}}})
     if p['outputs'] and rng.random() < 0.4:
         # an output alias that merely CONTAINS the framework's own operation-output alias
         p['outputs'][0]['alias'] = rng.choice(['my_tape_recorder_operation_log', 'audit_tape_recorder_operation'])
